@@ -35,6 +35,15 @@ Transcribed (one `def` per C++ function, strings are `List Char`, one `Char` per
 * `valueToStream`, `vectorisedValueToStream`, `parameterInfo` — KeyParser.cxx:1206, :1284, :1366 and
                          `operator<<(ostream&, vector<T>)` (stream.inl:62)
 
+* `hdrCallback`, `hdrLine`, `imagePost`, `parseImageHeader` — `InterfileImageHeader` with the call-backs of its count keys run line
+                         by line, in ANY order of the keys: `read_matrix_info` (src/IO/InterfileHeader.cxx:403, :503),
+                         `read_frames_info` (:459), `read_image_data_types` (:489), `read_num_energy_windows` (:413),
+                         `set_type_of_data` (:422), `InterfileHeader::post_processing` (:253), `InterfileImageHeader::post_processing` (:512)
+* `multiCallback`, `multiPost`, `parseMultiHeader` — `MultipleDataSetHeader` (src/buildblock/MultipleDataSetHeader.cxx:29-75)
+* `parseLoopWith`, `KP.parseWith` — `parse_header` with a per-line function (call-backs) as parameter
+* `PObj`, `Heap.step`, `Heap.run` — `ParsingObject` copy constructor, `operator=`, `parse`, `parameter_info`, destruction
+                         (src/buildblock/ParsingObject.cxx:30-135), pointers of a parser abstracted to the object they point into
+
 Not modelled: `${ENV}` substitution in `read_line`, floating point / unsigned / long values, arrays, coordinates,
 nested parsing objects (`PARSINGOBJECT`), `post_processing` of derived classes other than the per-segment checks of
 `InterfilePDFSHeader`, 32-bit overflow of `vector::size()`.
